@@ -280,9 +280,9 @@ def gen_c18(rng: random.Random) -> dict:
     t = 0.0
     while t < T:
         d = pick(rng, [1.0, 3.0, 7.0, 20.0, 65.0])
-        kind = pick(rng, ["ok", "ok", "refused", "unreachable", "hang", "badpw", "badname", "needs_enc", "hello_silence", "slow"])
+        kind = pick(rng, ["ok", "ok", "refused", "unreachable", "hang", "badpw", "badname", "needs_enc", "hello_silence", "slow", "netunreach_sync"])
         t1 = min(T, t + d)
-        if kind in ("refused", "unreachable", "hang"):
+        if kind in ("refused", "unreachable", "hang", "netunreach_sync"):
             connect_at.append({"from": t, "to": t1, "outcome": kind, "latency": pick(rng, [0.0, 0.01, 0.5])})
         elif kind == "badpw":
             persona_at.append({"from": t, "to": t1, "cfg": {"invalid_password": True}})
@@ -308,7 +308,13 @@ def gen_c18(rng: random.Random) -> dict:
             events.append({"at": {"t": te}, "do": "fault", "kind": k, "latency": 0.0})
     # mDNS records: random instants and the instants of retry timers / callbacks
     for _ in range(rng.randint(0, 6)):
-        rec = pick(rng, [{"type": "PTR", "alias": f"{name}._esphomelib._tcp.local."}, {"type": "A", "name": f"{name}.local."}, {"type": "PTR", "alias": "other._esphomelib._tcp.local."}, {"type": "A", "name": "other.local."}], [4, 3, 2, 1])
+        pool = [{"type": "PTR", "alias": f"{name}._esphomelib._tcp.local."}, {"type": "A", "name": f"{name}.local."}, {"type": "PTR", "alias": "other._esphomelib._tcp.local."}, {"type": "A", "name": "other.local."}]
+        rec = pick(rng, pool, [4, 3, 2, 1])
+        recs = [rec]
+        if rng.random() < 0.25:
+            # one update carrying several records (the matching one, if any, not necessarily first)
+            recs = [pick(rng, pool, [1, 1, 3, 3]) for _ in range(rng.randint(1, 2))] + [rec]
+            rng.shuffle(recs)
         r = rng.random()
         if r < 0.5:
             trig = {"t": rng.random() * (T + 30)}
@@ -318,7 +324,7 @@ def gen_c18(rng: random.Random) -> dict:
             trig = {"on": "sock_connect", "nth": rng.randint(1, 5), "delay": pick(rng, [0.0, 0.001, 0.2])}
         else:
             trig = {"on": "state", "match": {"new": pick(rng, ["SOCKET_OPENED", "CONNECTED"])}, "nth": rng.randint(1, 3), "delay": pick(rng, [0.0, 0.5])}
-        events.append({"at": trig, "do": "fault", "kind": "mdns", "records": [rec], "phase": pick(rng, ["pre", "post"])})
+        events.append({"at": trig, "do": "fault", "kind": "mdns", "records": recs, "phase": pick(rng, ["pre", "post"])})
     # control script
     rl_zc = pick(rng, [None, None, "zeroconf", "async"]) if client["zeroconf"] is None else None
     steps: list[dict] = [{"do": "rl.new", "name": None if use_mdns_addr else name, "zeroconf": rl_zc, "cb_delay": pick(rng, [{}, {}, {"error": 0.3}, {"disconnect": 0.7, "connect": 0.2}, {"error": 1.0, "disconnect": 0.1}])}, {"do": "rl.start"}]
